@@ -198,8 +198,28 @@ inline void nameSweep(const char* cont, const std::vector<std::string>& names, G
 inline bool ptEq(const Point& p, const PtSnap& s) { return p.name() == s.name && fbits(p.x()) == s.v[0] && fbits(p.y()) == s.v[1] && fbits(p.z()) == s.v[2] && fbits(p.residual()) == s.v[3]; }
 inline bool chEq(const Channel& c, const ChSnap& s) { return c.name() == s.name && fbits(c.data()) == s.v; }
 
+// every way of handing a name to a point / channel (a named string, a temporary, a literal; at construction or later) stores the trimmed name, under which it is then found
+inline void namingForms_C11(Sink& out, C11Stats& st) {
+    for (const char* raw : {"A", "A ", "Fx  ", "  ", "x y ", "T\t", ""}) {
+        std::string want = raw; vf::trimSpaces(want); std::string lv = raw;
+        std::vector<std::pair<std::string, std::string>> got;
+        { Point p; p.name(lv); got.push_back({"point/lvalue", p.name()}); }
+        { Point p; p.name(std::string(raw)); got.push_back({"point/temporary", p.name()}); }
+        { Point p; p.name(std::string(raw) + ""); got.push_back({"point/concatenation", p.name()}); }
+        { Point p(lv); got.push_back({"point/constructor", p.name()}); }
+        { Channel ch; ch.name(lv); got.push_back({"channel/lvalue", ch.name()}); }
+        { Channel ch; ch.name(std::string(raw)); got.push_back({"channel/temporary", ch.name()}); }
+        { Channel ch; ch.name(std::string(raw) + ""); got.push_back({"channel/concatenation", ch.name()}); }
+        { Channel ch(lv); got.push_back({"channel/constructor", ch.name()}); }
+        for (auto& g : got) { st.lookups++; if (g.second != want) V(out, "C11", "stored_name_not_trimmed/" + g.first, "named \"" + std::string(raw) + "\", stored \"" + g.second + "\""); }
+        // found under the trimmed name once inside a container
+        { Points P; Point p; p.name(std::string(raw)); P.point(p); st.lookups++; Outcome oc = guarded([&] { (void)P.pointIdx(want); }); if (oc != OK) V(out, "C11", "trimmed_name_not_found/points/temporary", std::string("\"") + raw + "\""); }
+        { SubFrame sf; Channel ch; ch.name(std::string(raw)); sf.channel(ch); st.lookups++; Outcome oc = guarded([&] { (void)sf.channelIdx(want); }); if (oc != OK) V(out, "C11", "trimmed_name_not_found/subframe/temporary", std::string("\"") + raw + "\""); }
+    }
+}
 inline void sweep_C11(World& w, const WSnap& s, Sink& out, C11Stats& st) {
     const C3D& c = *w.c; const OSnap& o = s.o;
+    if (o.frames.empty() && o.groups.size() <= 3) namingForms_C11(out, st);   // object-independent: once per exploration is enough, done in the few smallest states
     // frames
     posSweep("frame", o.frames.size(), [&](size_t i) -> const Frame& { return c.data().frame(i); },
              [&](const Frame& f, size_t i) { return snapFrame(f).sameContent(o.frames[i]); }, out, st);
